@@ -58,12 +58,14 @@ class Interp:
         self.named_consts = {}
         self.frame_env = {}        # fid -> {type parameter: instantiation text}
         self.clo_env = {}          # closure type -> env of the frame that created it
+        self.closure_of_parent = {}
         self.pending_env = None
         self.nheap = 0
         self.nsym = 0
         self.uf = {}
         self.fuel_limit = 4000
         self.closures = {}
+        self.closures_all = {}
         self.by_last = {}
         self.dispatch_hint = {}     # type variable -> type key, e.g. {'V': 'Emit'}
         for name, lst in fns.items():
@@ -71,6 +73,7 @@ class Interp:
                 if '{closure#' in name.split('::')[-1] and fn.params:
                     t = re.sub(r'^&(mut )?', '', fn.params[0][1]).strip()
                     self.closures.setdefault(t, fn)
+                    self.closures_all.setdefault(t, []).append(fn)
                 last = name.split('::')[-1]
                 self.by_last.setdefault(last, []).append(fn)
         self._fninfo = {}
@@ -157,7 +160,7 @@ class Interp:
             if fn is not None:
                 ty = fn.locals.get(key[1], '')
                 if ty.startswith('{closure@'):       # capture-less closure: a ZST that MIR never assigns
-                    return Struct(ty, ())
+                    return self._closure_value(ty, [], fn)
                 if ty == '()':
                     return unit()
             raise Inconclusive('read of unset location %r' % (key,))
@@ -332,7 +335,7 @@ class Interp:
             t = s[11:]
             mm = re.search(r'\{(.*)\}\s*$', t)
             if t.startswith('{closure@'):
-                return Struct(t.strip(), ())
+                return self._closure_value(t.strip(), [], fn) if fn is not None else Struct(t.strip(), ())
             if mm and 'fn(' in t:
                 return FnItem(mm.group(1))
             return Struct(t.strip(), ())
@@ -436,7 +439,9 @@ class Interp:
         if k == 'closure':
             if fid in self.frame_env:
                 self.clo_env[rv[1]] = self.frame_env[fid]
-            return Struct(rv[1], [self.operand(st, fid, o, fn) for o in rv[2]])
+            # remember the creating function: macro-generated functions share one span, hence one closure type name
+            return Struct(rv[1], [self.operand(st, fid, o, fn) for o in rv[2]], ['__parent__:' + fn.name] if not rv[2] else None) if False else \
+                self._closure_value(rv[1], [self.operand(st, fid, o, fn) for o in rv[2]], fn)
         if k == 'struct':
             path, names, ops = rv[1], rv[2], rv[3]
             vals = [self.operand(st, fid, o, fn) for o in ops]
@@ -906,6 +911,15 @@ class Interp:
                     return
         raise Inconclusive('unmodelled call: ' + callee[:200])
 
+    def _closure_value(self, ty, caps, parent_fn):
+        cands = self.closures_all.get(ty, [])
+        if len(cands) > 1:
+            mine = [f for f in cands if f.name.startswith(parent_fn.name + '::{closure')]
+            if len(mine) == 1:
+                self.closure_of_parent[(ty, parent_fn.name)] = mine[0]
+                return Struct(ty + '@@' + parent_fn.name, caps)
+        return Struct(ty, caps)
+
     def instantiation(self, fn, callee):
         """type-parameter environment of a generic impl method called through `callee`"""
         ms = re.findall(r'<impl at (\S+?):(\d+):(\d+): \d+:\d+>', fn.name)
@@ -951,7 +965,12 @@ class Interp:
             return
         if not isinstance(v, Struct) or not v.ty.startswith('{closure@'):
             raise Inconclusive('call of non-closure %r' % (v,))
-        fn = self.closures.get(v.ty)
+        if '@@' in v.ty:
+            base, _, parent = v.ty.partition('@@')
+            fn = self.closure_of_parent.get((base, parent))
+            v = Struct(base, v.f)
+        else:
+            fn = self.closures.get(v.ty)
         if fn is None:
             raise Inconclusive('closure body not found: ' + v.ty)
         pty = fn.params[0][1]
